@@ -188,10 +188,20 @@ func (dec *Decimal) SetString(s string) error {
 	s = strings.TrimSpace(s)
 
 	split := strings.Split(s, ".")
+	if len(split) > 2 {
+		return fmt.Errorf("failed to parse number %s: more than one decimal point", s)
+	}
 	left := split[0]
 	right := ""
 	if len(split) > 1 {
 		right = split[1]
+	}
+
+	// Trailing zeros do not change the value; more significant fractional
+	// digits than the scale cannot be represented.
+	right = strings.TrimRight(right, "0")
+	if len(right) > dec.Scale {
+		return fmt.Errorf("number %s has %d fractional digits, the scale is %d", s, len(right), dec.Scale)
 	}
 
 	// Set underlying big.Int structure to the whole number
@@ -205,6 +215,11 @@ func (dec *Decimal) SetString(s string) error {
 		mul := big.NewInt(10)
 		mul.Exp(mul, big.NewInt(int64(dec.Scale-len(right))), nil)
 		i.Mul(i, mul)
+	}
+
+	// The scaled value must not have more digits than the precision.
+	if i.Sign() != 0 && len(new(big.Int).Abs(i).String()) > dec.Precision {
+		return fmt.Errorf("number %s does not fit into a precision of %d digits", s, dec.Precision)
 	}
 
 	dec.i = i
